@@ -286,7 +286,7 @@ PROPS["C20"] = dict(
           "re-offered transaction, restart). Snapshot (balance 0/1, spendable set, unconfirmed hashes, leases) before each attempt: error returned => identical snapshot afterwards and the "
           "transaction unknown; accepted / already-in-mempool => recorded exactly once, inputs no longer spendable, balances equal the harness ledger; after every resynchronisation the "
           "backend's call log must show every still-unconfirmed transaction offered again, each after its unconfirmed parents (bounded wait of 20 s on the call log only), a transaction refused "
-          "on re-broadcast and everything spending it forgotten, balances equal to the ledger; an explicit rescan may have a second rescan job queued behind it which the backend may refuse. Non-trivial = a failing attempt while other unconfirmed transactions existed, or a re-broadcast after restart."),
+          "on re-broadcast and everything spending it forgotten, balances equal to the ledger. Non-trivial = a failing attempt while other unconfirmed transactions existed, or a re-broadcast after restart."),
     assumptions=_WALLET_ASSUME + ["for already-known / already-confirmed answers the statement is silent about the store: only internal consistency is required",
                                  "the re-broadcast runs in a goroutine the wallet spawns; the harness waits on the backend call log (20 s bound that only matters when offers are missing)"],
     units=[dict(name="broadcast", run="^TestC20Broadcast$", quick=600, thorough=2500, shards_quick=2, shards_thorough=16, timeout=1500)],
